@@ -1,4 +1,5 @@
 import AranyaV.Proofs.Conc.ShmIds
+import AranyaV.Gen.ConcShm
 /-!
 # C42 — AFC shared-memory channel tables stay consistent
 
@@ -19,6 +20,40 @@ pure function `Chan → Bool` of the channel parameters (the Rust signature allo
 `Nat` (no wrap of the `u32` generation after 2³² modifications or of the `u64` id).
 -/
 namespace AranyaV.Shm
+
+/-! ## the model transliterates the source that is there -/
+
+open AranyaV.Gen.ConcShm in
+/-- The access skeletons extracted from `write.rs` / `read.rs` / `shared.rs` on this run
+(yield-point labels, `lock`s, helper calls, in source order) are the ones the model's control
+states were written against — e.g. in `add`: id, `write_off`, lock, generation bump, `len`,
+*then* the offset swap, lock, generation bump, `len`, *then* the `write_off` store; in
+`clear`: `len` before the generation bump; in `ReadState::seal`: offset load, unsynchronised
+generation load, and only then lock, generation load, lookup — together with the source facts
+the model encodes (`==` comparison of generations, cache updated only on success, key
+re-derived at the cached sequence number, context cleared on `NotFound`, capacity checked
+before anything is written). -/
+theorem skeleton_matches :
+    wAdd = ["nid.inc", "op:fetch_add", "call:write_off", "lock", "gen.inc", "op:fetch_add", "len.set",
+      "call:swap_offsets", "lock", "gen.inc", "op:fetch_add", "len.set", "woff.store", "op:store"] ∧
+    wRemove = ["call:write_off", "lock", "gen.inc", "op:fetch_add", "call:swap_remove",
+      "call:swap_offsets", "lock", "gen.inc", "op:fetch_add", "call:swap_remove", "woff.store", "op:store"] ∧
+    wRemoveAll = ["call:write_off", "lock", "call:clear", "call:swap_offsets", "lock", "call:clear",
+      "woff.store", "op:store"] ∧
+    wRemoveIf = ["call:write_off", "lock", "call:remove_if", "call:swap_offsets", "lock", "call:remove_if",
+      "woff.store", "op:store"] ∧
+    wExists = ["call:load_write_list", "lock", "call:exists"] ∧
+    rSetupSeal = ["call:load_read_list", "lock", "gen.load", "op:load", "call:find_mut"] ∧
+    rSetupOpen = ["call:load_read_list", "lock", "gen.load", "op:load", "call:find_mut"] ∧
+    rSeal = ["call:load_read_list", "gen.peek", "op:load", "lock", "gen.load", "op:load", "call:find_mut"] ∧
+    rOpen = ["call:load_read_list", "gen.peek", "op:load", "lock", "call:find", "gen.load", "op:load"] ∧
+    rExists = ["call:load_read_list", "lock", "call:exists"] ∧
+    sReadOff = ["roff.load", "op:load"] ∧ sWriteOff = ["woff.load", "op:load"] ∧
+    sSwapOffsets = ["roff.swap", "op:swap"] ∧ sClear = ["len.set", "gen.inc", "op:fetch_add"] ∧
+    sRemoveIf = ["gen.inc", "op:fetch_add", "call:swap_remove"] ∧ sSwapRemove = ["len.set", "op:swap"] ∧
+    sealHitCompare = true ∧ sealUpdatesOnlyOnOk = true ∧ sealRederivesAtCachedSeq = true ∧
+    sealClearsCtxOnNotFound = true ∧ setupSealStartsAtZero = true ∧ addChecksCapFirst = true := by
+  decide
 
 /-! ## the code never reaches a `Corrupted` / overwritten-slot branch -/
 
